@@ -491,7 +491,7 @@ fn bif_max(parameters: &NamedParameters) -> Value {
 
 fn bif_mean(parameters: &NamedParameters) -> Value {
   if let Some((Value::List(list), _)) = get_param(parameters, &NAME_LIST) {
-    core::median(list.as_vec())
+    core::mean(list.as_vec())
   } else {
     parameter_not_found!(&NAME_LIST)
   }
